@@ -142,9 +142,27 @@ class Index(object):
                     self.parse_errors.append('%s: %s' % (rel, e))
                     continue
                 self.modules[m.name] = m
-                self._scan_module(m)
         if self.parse_errors:
             raise AnchorVanished('unparsable source: ' + '; '.join(self.parse_errors))
+        # normal form: un-anchored private helpers are seen inlined (txsa/normalize.py)
+        self.inlined_helpers = []
+        self.canonicalised = []
+        if not os.environ.get('TXSA_NO_NORMALIZE'):
+            from .canon import canonicalise
+            from .normalize import normalize_package, propagate_constants, desugar
+            trees = dict((m.name, m.tree) for m in self.modules.values())
+            self.canonicalised = canonicalise(trees)
+            from .canon import canonicalise_locals
+            self.canonicalised += canonicalise_locals(trees)
+            self.propagated_constants = propagate_constants(trees)
+            from .normalize import undo_extracted_locals
+            from .canon import REF
+            import json as _json
+            self.unextracted = undo_extracted_locals(trees, _json.load(open(REF))) if os.path.exists(REF) else []
+            self.inlined_helpers = normalize_package(trees)
+            self.desugared = desugar(trees)
+        for m in self.modules.values():
+            self._scan_module(m)
         self._parents = {}
 
     # ------------------------------------------------------------------ scan
